@@ -46,8 +46,8 @@ def roundSigNoCarry (N : Rat) (d : Nat) (e : Int) : Except Err Rat :=
     let p : Rat := ((pref * pow10 ((d : Int) - 1) + 1 / 2).floor : Int)
     .ok (sign * (p * pow10 (-(d : Int) + 1)) * pow10 e)
 
-/-- `Round` with the guard proposed for audit item P12 (pending in /repo, /tmp/fixprop-C17-2): zero significant
-    digits are rejected like more than seven (on HEAD `Round(x, 0)` is `inf`: `digits − 1` wraps in `unsigned`) -/
+/-- `Round` as coded after f9320d5: zero significant digits are rejected like more than seven (before,
+    `Round(x, 0)` was `inf`: `digits − 1` wraps in `unsigned`); `roundSig` is the part for `digits ≥ 1` -/
 def roundSigG (N : Rat) (d : Nat) (e : Int) : Except Err Rat :=
   if d = 0 then .error .diag else roundSig N d e
 
@@ -59,6 +59,6 @@ def Admissible (a : Rat) (e : Int) : Prop :=
   (pow10 (e + 1) ≤ a ∧ a ≤ pow10 (e + 1) * (1 + 1 / 10 ^ 15))
 
 /-- `Round` with the exact exponent (what the driver evaluates) -/
-def round (N : Rat) (d : Nat) : Except Err Rat := roundSig N d (expo10Fast (rabs N))
+def round (N : Rat) (d : Nat) : Except Err Rat := roundSigG N d (expo10Fast (rabs N))
 
 end Lp.C17
